@@ -1,11 +1,11 @@
 package run
 
 import (
-	"reflect"
 	"bytes"
 	"context"
 	"fmt"
 	"net"
+	"reflect"
 	"runtime"
 	"strconv"
 	"strings"
@@ -30,21 +30,21 @@ type park struct {
 }
 
 type Sched struct {
-	x       *Exec
-	mu      sync.Mutex
-	cond    *sync.Cond
-	byGoid  map[int64]string
-	parked  map[string]*park // actor -> where it is parked now
-	arrived map[string]int   // actor -> number of arrivals so far
-	finished map[string]bool // actor -> its goroutine has ended (Close returned or panicked)
-	free    bool             // schedule over: every hook passes through
-	all     []*park
+	x           *Exec
+	mu          sync.Mutex
+	cond        *sync.Cond
+	byGoid      map[int64]string
+	parked      map[string]*park // actor -> where it is parked now
+	arrived     map[string]int   // actor -> number of arrivals so far
+	finished    map[string]bool  // actor -> its goroutine has ended (Close returned or panicked)
+	free        bool             // schedule over: every hook passes through
+	all         []*park
 	StepTimeout time.Duration
-	OnlyPark map[string]bool   // when set: only these points park; the others pass through
-	mapIDs   map[string]int    // type map identity -> small id
-	MapsOf   map[string]map[int]bool // actor -> ids of the type maps it encoded with
-	PartsOf  map[string]map[int]bool // actor -> ids of the internal tables of those maps
-	ParkOnce map[string]string       // actor -> a point at which it parks once more (then the entry is removed)
+	OnlyPark    map[string]bool         // when set: only these points park; the others pass through
+	mapIDs      map[string]int          // type map identity -> small id
+	MapsOf      map[string]map[int]bool // actor -> ids of the type maps it encoded with
+	PartsOf     map[string]map[int]bool // actor -> ids of the internal tables of those maps
+	ParkOnce    map[string]string       // actor -> a point at which it parks once more (then the entry is removed)
 }
 
 func goid() int64 {
@@ -348,6 +348,7 @@ func PlaySched(beh M) ([]M, error) {
 	s.free = false
 	s.mu.Unlock()
 	ncmd := 0
+	stepIdx := 0
 	cmdBytes := map[string][]byte{}
 	nextCmd := func(a string) []byte {
 		if b, ok := cmdBytes[a]; ok { // the rest of a message delivered in two parts
@@ -358,7 +359,19 @@ func PlaySched(beh M) ([]M, error) {
 		case 0, 2:
 			return pgw.Execute("p", 0)
 		case 1:
-			return pgw.Execute("pp", 0)
+			// the failing Execute leaves the connection discarding until Sync (messages are then dropped before
+			// admission): only as the last command delivered to this connection
+			later := false
+			for _, sv := range L(beh, "steps")[stepIdx+1:] {
+				st := AsM(sv)
+				if S(st, "a") == a && strings.HasPrefix(S(st, "act"), "Deliver") {
+					later = true
+				}
+			}
+			if !later {
+				return pgw.Execute("pp", 0)
+			}
+			return pgw.Execute("p", 0)
 		}
 		return pgw.Query("q1")
 	}
@@ -379,10 +392,11 @@ func PlaySched(beh M) ([]M, error) {
 	started := []string{}
 	partial := map[string]bool{}
 	ok := true
-	for _, sv := range L(beh, "steps") {
+	for si, sv := range L(beh, "steps") {
 		if !ok {
 			break
 		}
+		stepIdx = si
 		st := AsM(sv)
 		a, act := S(st, "a"), S(st, "act")
 		res := "parked"
